@@ -126,6 +126,14 @@ def _cases(tier, seed):
         if d == 1:
             for it in ('int', S_SS, S_STEP, 'ell'):
                 cs.append({'scen': 'getitem_shape', 's': {'d': 1, 'B': Bs, 'index': [it if isinstance(it, str) else list(it)], 'bare': True}, 'opts': SH})
+    # fewer indices than modes (with and without None): an error, or else exactly the dense shape
+    for d in (2, 3):
+        for idx in (['int'], [S_ALL], ['none', 'int'], ['int', 'none'], ['none', S_ALL], ['none', 'int', 'int'][:d], ['int', 'none', S_2][:d], ['none', 'none', 'int']):
+            if sum(1 for k in idx if k != 'none') >= d:
+                continue
+            cs.append({'scen': 'getitem_shape', 's': {'d': d, 'B': Bs, 'too_few': True, 'index': [k if isinstance(k, str) else list(k) for k in idx]}, 'opts': SH})
+    for idx in (['int', 'int'], ['none', 'int', 'none', 'int'], ['none', 'int', 'int', 'none', 'int', 'int'][:4]):
+        cs.append({'scen': 'getitem_shape', 's': {'d': 2, 'B': Bs, 'ttm': True, 'too_few': True, 'index': list(idx)}, 'opts': SH})
     for d in (1, 2):
         pk = [('int', 'int'), (S_ALL, S_ALL), (S_SS, S_S1), (S_2, S_STEP)]
         for c in itertools.product(pk, repeat=d):
